@@ -143,6 +143,10 @@ func walkICC(d []byte) map[string][]fpos {
 			switch string(d[off : off+4]) {
 			case "desc":
 				m["desc_count"] = append(m["desc_count"], fpos{off + 8, 4, false})
+				// the Unicode part after the ASCII string: language code (4), count of code units (4)
+				if uc := off + 12 + int(binary.BigEndian.Uint32(d[off+8:])) + 4; uc+4 <= len(d) && uc > 0 {
+					m["desc_ucount"] = append(m["desc_ucount"], fpos{uc, 4, false})
+				}
 			case "mluc":
 				m["mluc_count"] = append(m["mluc_count"], fpos{off + 8, 4, false})
 				m["mluc_recsize"] = append(m["mluc_recsize"], fpos{off + 12, 4, false})
@@ -176,8 +180,28 @@ func iccSeeds() []hseed {
 		mt = append(mt, gen.ICCTag{Sig: fmt.Sprintf("%c%c%c%c", 'A'+i%26, 'a'+(i/26)%26, 'a'+(i/676)%26, '0'+(i/17576)%10), Block: 1})
 	}
 	many := gen.BuildICC(nil, mt, []gen.ICCBlock{{Data: gen.TextDesc("many shared tags")}, {Data: gen.Payload(2<<20, 4, false)}}, nil, nil)
+	// long (legal) descriptions, 150 KB of ASCII and 150 KB of UTF-16: the cost of reading them is
+	// linear in their length
+	longV2 := gen.BuildICC(func() []byte { h := gen.ICCHeader(0); h[8], h[9] = 2, 0x40; return h }(),
+		[]gen.ICCTag{{"desc", 0}, {"cprt", 1}},
+		[]gen.ICCBlock{{Data: gen.TextDesc(strings.Repeat("a long description. ", 7500))}, {Data: gen.Payload(24, 1, true)}}, nil, nil)
+	mlLong, _ := gen.Mluc([]gen.MlucRec{{"en", "US", strings.Repeat("eine lange Beschreibung ", 3200)}}, "table", 12)
+	longV4 := gen.BuildICC(nil, []gen.ICCTag{{"desc", 0}, {"cprt", 1}},
+		[]gen.ICCBlock{{Data: mlLong}, {Data: gen.Payload(40, 3, true)}}, nil, nil)
+	// a v2 description whose ASCII part is empty and whose Unicode part is not (20 code units, none null)
+	ud := gen.TextDescRaw(1, []byte{0}, false)
+	ud = append(ud, 0, 0, 0, 0, 0, 0, 0, 20)
+	for _, r := range "Unicode description!" {
+		ud = append(ud, 0, byte(r))
+	}
+	ud = append(ud, make([]byte, 2+1+67)...)
+	v2u := gen.BuildICC(func() []byte { h := gen.ICCHeader(0); h[8], h[9] = 2, 0x40; return h }(),
+		[]gen.ICCTag{{"desc", 0}, {"cprt", 1}}, []gen.ICCBlock{{Data: ud}, {Data: gen.Payload(24, 1, true)}}, nil, nil)
 	return []hseed{{"icc-v2", "icc", v2, walkICC(v2)}, {"icc-v4", "icc", v4, walkICC(v4)},
-		{"icc-many-shared-tags", "icc", many, map[string][]fpos{"profile_size": {{0, 4, false}}}}}
+		{"icc-v2-unicode-only", "icc", v2u, walkICC(v2u)},
+		{"icc-many-shared-tags", "icc", many, map[string][]fpos{"profile_size": {{0, 4, false}}}},
+		{"icc-long-v2-description", "icc", longV2, map[string][]fpos{"profile_size": {{0, 4, false}}}},
+		{"icc-long-v4-description", "icc", longV4, map[string][]fpos{"profile_size": {{0, 4, false}}}}}
 }
 
 func containerSeeds(profile []byte) []hseed {
